@@ -54,6 +54,7 @@ def gen_frame(tier, seed):
     for la in lats(tier, seed):
         yield {'lat': la, 'lons': lo, 'kind': 'float'}
     yield {'lat': -24, 'lons': [134, -1, 0], 'kind': 'float'}            # ints
+    yield {'lat': np.int16(-24), 'lons': [np.int16(134), np.int8(-1), np.int32(0)], 'kind': 'float'}
     for kind in cfg.INTYPES[1:] + cfg.NUMFORMS:
         yield {'lat': -23.67, 'lons': [133.88, -0.3, 0.15], 'kind': kind}
         yield {'lat': -0.4, 'lons': [-0.3], 'kind': kind}
@@ -93,6 +94,16 @@ def ev_frame(case, rec):
             except Exception:
                 rec.skip('input object could not be built (C08)')
                 continue
+        if case['kind'] in cfg.NUMFORMS:
+            # numpy-scalar latitude / longitude (e.g. elements of a float32 array): the frame must be the one of their value
+            ua, uo = cfg.unwrap(lat_a), cfg.unwrap(lon_a)
+            st, Rn = rec.call(rotation_matrix, ua, uo)
+            Rf = rotation_matrix(lat_a.dec(), lon_a.dec())
+            M0 = np.array([[4.0, 1.0, 0.5], [1.0, 3.0, -1.0], [0.5, -1.0, 9.0]])
+            st2, Vn = rec.call(vcv_cart2local, M0.copy(), ua, uo)
+            if st != 'ok' or st2 != 'ok' or float(np.max(np.abs(Rn - Rf))) > 4e-16 or float(np.max(np.abs(Vn - Rf.T @ M0 @ Rf))) > 1e-14:
+                rec.fail('rotation_matrix / vcv_cart2local lose precision (or differ) for latitude/longitude given as %s' % type(ua).__name__,
+                         site='statistics:rotation_matrix:input-form', observed=Rn, expected=Rf.tolist(), case=one, coords={'kind': case['kind']})
         for v in VECS:
             st, x = rec.call(enu2xyz, cfg.unwrap(lat_a), cfg.unwrap(lon_a), v[0], v[1], v[2])
             if st != 'ok':
